@@ -66,7 +66,7 @@ def run(ck, prog, ctx):
             writers.append((b, sites))
     ck.floor("PAIR", "edge writers", len(writers), 2)
     for need in ("add_parent", "add_parent_unchecked"):
-        ck.anchor("PAIR", "Builder<AllTerms>::" + need, [b for b, _ in writers if b.name == need])
+        ck.anchor("PAIR", "Builder<AllTerms>::" + need, [b for b, _ in writers if b.name == need], private=(need == "add_parent_unchecked"))
     for b, sites in sorted(writers, key=lambda x: x[0].id):
         wp = [(bi, t) for bi, t, f in sites if "parents" in f]
         wc = [(bi, t) for bi, t, f in sites if "children" in f]
